@@ -76,9 +76,66 @@ let vdst op a b cout =
     match reference with
     | None -> "FUEL"
     | Some e ->
-      let bad = List.filter (fun t -> match rn_cmp fuel (rnum_of_token t) e with Some Z0 -> false | _ -> true) cout in
-      if bad = [] && cout <> [] then "CHECK ok" else "CHECK fail: expected " ^ string_of_rnum e ^ " got " ^ String.concat " " cout
+      let is_self t = String.length t > 5 && String.sub t 0 5 = "self:" in
+      let selfs = List.map strip_self (List.filter is_self cout) and cout' = List.filter (fun t -> not (is_self t)) cout in
+      (* out == a == b: the reference is op a a *)
+      let eself = (match selfs, op with
+        | [], _ -> Some e
+        | _, "add" -> rn_add fuel x x | _, "sub" -> rn_sub fuel x x | _, "mul" -> rn_mul fuel x x | _, "div" -> rn_div fuel x x
+        | _ -> None) in
+      (match eself with
+       | None -> "FUEL"
+       | Some es ->
+         let differs r t = (match rn_cmp fuel (rnum_of_token t) r with Some Z0 -> false | _ -> true) in
+         let bad = List.filter (differs e) cout' @ List.filter (differs es) selfs in
+         if bad = [] && cout' <> [] then "CHECK ok"
+         else "CHECK fail: expected " ^ string_of_rnum e ^ (if selfs <> [] then " self " ^ string_of_rnum es else "") ^ " got " ^ String.concat " " cout)
   with Bad_value s -> "CHECK fail: " ^ s
+
+(* scalar layer: the model value (output operand independence of dy_add / dy_sub / dy_mul is a theorem of Properties_C19,
+   so the pure value is the reference for every aliasing pattern); the texts must be identical, not just equal in value *)
+let sdst toks cout =
+  let (res, ins) = split_in cout in
+  let z = z_of_string in
+  let chk e eself ein =
+    if ins <> ein then "CHECK fail: an input operand was modified" else
+    match res with
+    | [r1; r2; r3; r4; r5] when r1 = e && r2 = e && r3 = e && r4 = e && r5 = "self:" ^ eself -> "CHECK ok"
+    | _ -> "CHECK fail: expected " ^ e ^ " for every output operand and self:" ^ eself in
+  let str_dy d = string_of_z d.da ^ "/" ^ string_of_n d.dn in
+  let opt f = function Some v -> f v | None -> "none" in
+  match toks with
+  | ["d"; op; a; an; b; bn; _; _] ->
+    let x = { da = z a; dn = n_of_string an } and y = { da = z b; dn = n_of_string bn } in
+    let fresh = { da = Z0; dn = N0 } in
+    let f = (match op with "add" -> dy_add | "sub" -> dy_sub | "mul" -> dy_mul | _ -> failwith "bad sdst d op") in
+    chk (str_dy (f NoAlias fresh x y)) (str_dy (f NoAlias fresh x x)) [str_dy x; str_dy y]
+  | ["q"; op; a; b; c; d; _; _] ->
+    let x = (z a, z b) and y = (z c, z d) in
+    let f p q = (match op with "add" -> Some (q_add p q) | "sub" -> Some (q_sub p q) | "mul" -> Some (q_mul p q)
+                 | "div" -> q_div p q | _ -> failwith "bad sdst q op") in
+    if op = "div" && fst y = Z0 then (if cout = ["none"] then "CHECK ok" else "CHECK fail: division by zero is outside the domain")
+    else chk (opt string_of_rat (f x y)) (opt string_of_rat (f x x)) [string_of_rat x; string_of_rat y]
+  | ["z"; op; m; a; b; u] ->
+    let k = (if m = "0" then None else Some (z m)) and x = z a and y = z b in
+    (match op with
+     | "addmul" | "submul" ->
+       let f s p q = string_of_z ((if op = "addmul" then int_add_mul else int_sub_mul) k s p q) in
+       if ins <> [string_of_z x; string_of_z y] then "CHECK fail: an input operand was modified" else
+       (match res with
+        | [r1; r2; r3; r4] when r1 = f (z u) x y && r2 = f x x y && r3 = f y x y && r4 = "self:" ^ f x x x -> "CHECK ok"
+        | _ -> "CHECK fail: expected " ^ String.concat " " [f (z u) x y; f x x y; f y x y; "self:" ^ f x x x])
+     | _ ->
+       let f p q = (match op with
+         | "add" -> Some (int_add k p q) | "sub" -> Some (int_sub k p q) | "mul" -> Some (int_mul k p q)
+         | "divexact" -> int_div_exact k p q
+         | "divZ" -> Some (int_div_Z p q) | "remZ" -> Some (int_rem_Z p q)
+         | "gcd" -> Some (int_gcd_Z p q) | "lcm" -> Some (int_lcm_Z p q)
+         | _ -> failwith "bad sdst z op") in
+       let div = List.mem op ["divexact"; "divZ"; "remZ"] in
+       if div && y = Z0 then (if cout = ["none"] then "CHECK ok" else "CHECK fail: division by zero is outside the domain")
+       else chk (opt string_of_z (f x y)) (if div && x = Z0 then "none" else opt string_of_z (f x x)) [string_of_z x; string_of_z y])
+  | _ -> "UNKNOWN-OP"
 
 let rc (toks : string list) =
   (* translate to the model's operations; polynomials are holders of their context *)
@@ -116,6 +173,7 @@ let run (toks : string list) (cout : string list) : string =
     if ins <> [string_of_mpoly (mpoly_of_string a); string_of_mpoly (mpoly_of_string b)] then "CHECK fail: an input operand was modified"
     else if all_equal res && res <> [] then "CHECK ok" else "CHECK fail: results differ between fresh / pre-used / aliased outputs"
   | ["vdst"; op; a; b; _] -> vdst op a b cout
+  | "sdst" :: rest -> sdst rest cout
   | "idst" :: _ -> if all_equal cout && cout <> [] then "CHECK ok" else "CHECK fail: interval results differ between output operands"
   | "rc" :: rest -> rc rest
   | "isub" :: _ ->
